@@ -36,7 +36,9 @@ ASSUMPTIONS = [
     "the solution sequence entering the modifiers is an INPUT (what rdflib returns for SELECT * over one of six base "
     "patterns); translateAggregates / algebra.translate are not modelled: the model's pipeline is the intended result of "
     "that rewriting, tied only through the query text of every case",
-    "terms: blank nodes, IRIs, plain string literals, xsd:integer, xsd:decimal (no language tags, no booleans, no dates, no doubles, "
+    "terms: blank nodes, IRIs, plain string literals, language-tagged strings with lower-case tags, xsd:boolean, xsd:integer, "
+    "xsd:decimal as sort / group keys and aggregate members (expressions over tagged strings and booleans are modelled but not "
+    "tied; SUM never meets an xsd:boolean: wf sum_bool_free, HEAD raises TypeError there - F-C08i in the notes); (no dates, no doubles, "
     "no other datatypes); sort keys are variables; aggregate arguments are variables or expressions over variables, "
     "constants, unary/binary +/-, comparisons, && || !, IF, binary COALESCE, BOUND (the evaluator eval_t/eval_b is shared "
     "by model and checker: its agreement with rdflib is tied, its agreement with SPARQL 17 is not claimed here); an unbound "
@@ -57,7 +59,7 @@ ASSUMPTIONS = [
     "the order of GROUP_CONCAT, the member returned by SAMPLE and the choice among tied MIN/MAX values are "
     "left open by the specification checker",
 ]
-RULE = ("random graph over a tiny vocabulary with mixed object kinds (bnode, IRI, integer, decimal, string), one of "
+RULE = ("random graph over a tiny vocabulary with mixed object kinds (bnode, IRI, boolean, integer, decimal, string, tagged string), one of "
         "five base patterns (with OPTIONAL so that variables are unbound in some rows; one that matches nothing), "
         "random stack of DISTINCT, ORDER BY with 1-3 ASC/DESC keys, LIMIT/OFFSET, projection, GROUP BY with 0-2 keys, "
         "1-3 aggregates out of the seven with/without DISTINCT, HAVING (aggregate or grouping key); 8 %: two aggregates "
@@ -74,6 +76,9 @@ OBJ_NUM = [Literal(1), Literal(2), Literal(-3), Literal(10), Literal(0), Literal
 OBJ_INT = [Literal(1), Literal(2), Literal(3), Literal(-1), Literal(0), Literal(7)]
 OBJ_MIX = OBJ_NUM + [Literal(""), Literal("x"), Literal("1"), Literal("a b"), Literal("b"),
                      URIRef(E + "a"), URIRef(E + "b"), BNode("b1"), BNode("b2")]
+# wider sort keys: language-tagged strings (lower-case tags) and booleans
+OBJ_WIDE = OBJ_MIX + [Literal(True), Literal(False), Literal(True), Literal("x", lang="en"), Literal("a", lang="fr"),
+                      Literal("", lang="en"), Literal("x", lang="de"), Literal("b", lang="en")]
 PATTERNS = {
     0: "?v0 <http://e/p> ?v2",
     1: "?v0 <http://e/p> ?v2 OPTIONAL { ?v0 <http://e/q> ?v3 }",
@@ -102,6 +107,12 @@ def enc_term(t):
         dt = t.datatype
         if t.language is None and dt is None:
             return ["S", s]
+        if t.language is not None and dt is None:
+            lang = str.__str__(t.language)
+            # the model keeps tags in lower case (rdflib compares them case-insensitively); only such are generated
+            return ["L", lang, s] if lang and lang == lang.lower() else ["S", "\x00unmodelled:" + repr(t)]
+        if t.language is None and str.__str__(dt) == str.__str__(XSD.boolean) and s in ("true", "false"):
+            return ["T", s == "true"]
         if t.language is None and str.__str__(dt) == str.__str__(XSD.integer):
             try:
                 return ["Z", int(s)]
@@ -131,6 +142,10 @@ def dec_term(j):
     if k == "D":
         m, kk = j[1], j[2]
         return Literal(Decimal(m).scaleb(-kk))
+    if k == "L":
+        return Literal(j[2], lang=j[1])
+    if k == "T":
+        return Literal(bool(j[1]))
     raise ValueError(j)
 
 
@@ -144,6 +159,10 @@ def c_term(j):
         return f"TInt {cZ(j[1])}"
     if k == "D":
         return f"TDec {cZ(j[1])} {cN(j[2])}"
+    if k == "L":
+        return f"TLang {cstr(j[1])} {cstr(j[2])}"
+    if k == "T":
+        return f"TBool {cbool(j[1])}"
     return f"TStr {cstr(j[1])}"
 
 
@@ -476,7 +495,8 @@ class C08(Suite):
         """SELECT DISTINCT + ORDER BY over all projected variables on value-equal literals of different
         lexical form / datatype (1, 1.0, 1.00, 2, 2.0): ties in the sort order, duplicates not adjacent"""
         pool = [Literal(1), Literal(Decimal("1.0")), Literal(Decimal("1.00")), Literal(2), Literal(Decimal("2.0")),
-                Literal(1), Literal(Decimal("1.0")), Literal("x")]
+                Literal(1), Literal(Decimal("1.0")), Literal("x"), Literal("x", lang="en"), Literal(True), Literal(False),
+                Literal("x", lang="de")]
         objs = rng.sample(pool, rng.choice([3, 4, 5]))
         pat = rng.choice([0, 0, 2, 1, 3])
         case = {"graph": self.gen_graph(rng, objs, 12), "pattern": pat, "group": None, "aggs": [], "having": None,
@@ -497,7 +517,7 @@ class C08(Suite):
 
     def gen_general(self, rng):
         prof = rng.random()
-        pool = OBJ_INT if prof < 0.3 else OBJ_NUM if prof < 0.6 else OBJ_MIX
+        pool = OBJ_INT if prof < 0.25 else OBJ_NUM if prof < 0.5 else OBJ_MIX if prof < 0.72 else OBJ_WIDE
         # few distinct objects per graph: equal values meet inside one group
         objs = rng.sample(pool, min(len(pool), rng.choice([1, 2, 2, 3, 3, 4, 6])))
         nsub = rng.choice([1, 2, 2, 3, 4])
@@ -561,6 +581,14 @@ class C08(Suite):
             if off == 0 and lim is None:
                 lim = 2
             case["slice"] = [off, lim]
+        # wf (sum_bool_free): SUM never meets an xsd:boolean (HEAD raises TypeError there, F-C08i in the notes)
+        if any(t[2][0] == "T" for t in triples):
+            for _, a in case["aggs"]:
+                if a["kind"] == "sum":
+                    a["kind"] = "avg"
+            h = case["having"]
+            if h and "agg" in h and h["agg"]["kind"] == "sum":
+                h["agg"]["kind"] = "avg"
         return case
 
     def gen_agg(self, rng, pv, kinds=KINDS):
@@ -763,6 +791,7 @@ class C08(Suite):
                 for _, t in r:
                     kinds.add(t[0])
             f["mixed_kinds"] = int(len(kinds) >= 3)
+            f["lang_or_boolean_terms"] = int(bool(kinds & {"L", "T"}))
             f["unbound_present"] = int(unb)
         return f
 
